@@ -181,6 +181,43 @@ let run_parse id (lines : string list) =
     | [] -> ()
     | _ -> failwith "bad parse line") lines
 
+
+(* ---------- nogood store ---------- *)
+let tv_of_char ch = match ch with 'T' -> T | 'F' -> F | _ -> U
+let char_of_tv x = match x with T -> 'T' | F -> 'F' | U -> 'u'
+let ng_of_string (s : string) : tv list = List.init (String.length s) (fun i -> tv_of_char s.[i])
+let terms_of_string (s : string) : n list =
+  List.init (String.length s) (fun i -> match s.[i] with 'T' -> n_of_int 1 | 'F' -> N0 | _ -> n_of_int 2)
+let ng_string (g : tv list) (n : int) : string =
+  String.init n (fun i -> match List.nth_opt g i with Some x -> char_of_tv x | None -> 'u')
+
+let run_ng id (lines : string list) =
+  let n = ref 0 and store = ref (ngs_new O) and k = ref 0 in
+  let qid () = let q = "q" ^ string_of_int !k in incr k; q in
+  (try
+    List.iter (fun line ->
+      match words line with
+      | ["n"; x] -> n := int_of_string x; store := ngs_new (nat_of_int !n)
+      | ["mode"; m] -> store := { !store with dup = (match m with "none" -> DNone | "equiv" -> DEquiv | _ -> DSubsume) }
+      | ["add"; g] -> (match add_ng !store (ng_of_string g) with Some s -> store := s | None -> raise Exit)
+      | ["concl"; g] ->
+        emit id (qid ()) ("concl " ^ (match conclusions !store (ng_of_string g) with Some r -> ng_string r !n | None -> "CONFLICT"))
+      | ["closure"; g] ->
+        emit id (qid ()) ("closure " ^ (match conclusion_closure !store (terms_of_string g) with
+          | Some (CUpdate v) -> "Update " ^ interp_string v
+          | Some CNoUpdate -> "NoUpdate"
+          | Some CInconsistent -> "Inconsistent"
+          | None -> "NOFUEL"))
+      | ["conclude"; a; b] ->
+        let a = ng_of_string a and b = ng_of_string b in
+        emit id (qid ()) ("conclude " ^ (match conclude a b with Some (p, v) -> string_of_int (int_of_nat p) ^ ":" ^ (if v then "1" else "0") | None -> "none")
+                          ^ " viol " ^ (if is_violating a b then "1" else "0"))
+      | ["dump"] ->
+        emit id (qid ()) ("dump " ^ join "|" (fun b -> join "," (fun g -> ng_string g !n) b) !store.buckets)
+      | [] -> ()
+      | _ -> failwith ("bad ng line: " ^ line)) lines
+  with Exit -> emit id "PANIC" "")
+
 (* ---------- main loop ---------- *)
 let () =
   let ic = if Array.length Sys.argv > 1 then open_in Sys.argv.(1) else stdin in
@@ -200,6 +237,7 @@ let () =
               | "ADF" -> run_adf id lines
               | "ITER2" | "ITER3" -> run_iter id kind lines
               | "PARSE" -> run_parse id lines
+              | "NG" -> run_ng id lines
               | _ -> failwith ("unknown case kind " ^ kind))
            with Stack_overflow -> emit id "STACKOVERFLOW" "");
            cur := None
